@@ -13,6 +13,7 @@
 //     config.LoadConfig + api.Generate of the tree under test, and after
 //     EVERY action the go/parser projection of the real resolver files
 //     (method -> body text / doc comment / result names, helper declarations,
+//     the declaration of the root resolver struct with its field list,
 //     imports, content of the trailing WARNING block) is compared with the
 //     state TLC printed. Where the specification demands it, the package is
 //     compiled (go build, offline).
